@@ -166,6 +166,23 @@ func lemmaRenderContextCopies(c runtime.Context) bool {
 	return a1 == a2 && b1 == b2 && c1 == c2
 }
 
+// The VM has its own copies of the decoders (internal/runtime/vm.go): they
+// agree with the compiler's copies on every operand byte pattern, so what the
+// builder encodes is what the VM decodes.
+func lemmaDecoderCopies(a, b, c int8) bool {
+	t1, i1 := decodeValueIndex(a, b)
+	t2, i2 := runtime.VerifDecodeValueIndex(a, b)
+	return decodeInt16(a, b) == runtime.VerifDecodeInt16(a, b) &&
+		decodeUint16(a, b) == runtime.VerifDecodeUint16(a, b) &&
+		decodeUint24(a, b, c) == runtime.VerifDecodeUint24(a, b, c) &&
+		int8(t1) == t2 && i1 == i2
+}
+
+//@ func lemmaDecoderCopies
+//@   props C20
+//@   mode bv
+//@   ensures result
+
 // An index below 256 stored as int8 is read back by the VM as uint8.
 func lemmaIndex8(r int) bool { return r < 0 || r > 255 || int(uint8(int8(r))) == r }
 
